@@ -110,6 +110,15 @@ def rows_of(p, n):
 
 # ----------------------------------------------------------------- observation
 def canon_cell(x, dt):
+    """canonical token of a table cell, read with the source dtype of its column; a cell that does not
+    fit that dtype at all (a value leaked from somewhere else) becomes a `?:` token, never an exception"""
+    try:
+        return _canon_cell(x, dt)
+    except (ValueError, TypeError, OverflowError):
+        return f"?:{type(x).__name__}:{x!r}"[:80]
+
+
+def _canon_cell(x, dt):
     import pandas as pd
 
     if x is None or (not isinstance(x, str) and pd.isna(x)):
@@ -185,6 +194,15 @@ def impl_obs(case):
     if case.get("csv"):
         obs["csv"] = csv_obs(case, obs)
     return obs
+
+
+def impl_seq(seqcase):
+    """a SEQUENCE of exports in one process (same property names, other shapes / masks / dtypes per step)"""
+    return {"steps": [impl_obs(c) for c in seqcase["seq"]]}
+
+
+def observe(item):
+    return impl_seq(item) if "seq" in item else impl_obs(item)
 
 
 def _read_csv(path):
@@ -615,6 +633,19 @@ def random_case(rng, collide=False):
     return c
 
 
+def sequence_case(rng):
+    """2..4 stores exported one after the other in one process; property names repeat across the steps with
+    different shapes, masks and dtypes, so that a column / mask / warning leaking from an earlier call would show"""
+    steps = []
+    for _ in range(rng.randint(2, 4)):
+        c = random_case(rng)
+        for kind in ("node", "edge"):
+            for i, pr in enumerate(c[f"{kind}_props"]):
+                pr["name"] = ["p", "q", "r"][i]
+        steps.append(c)
+    return {"seq": steps}
+
+
 def exhaustive_cases(rng, thorough):
     """one property per store: every trailing shape over {1,2} up to rank 4 x N x missing x dtype"""
     trails = [[]]
@@ -692,7 +723,8 @@ def run(ck: common.Check):
                "string properties re-created as variable-length UTF8 strings with the raw zarr API (N,E in {0,1,2,5} x rank 1-3 x "
                "v2/v3 x node/edge axis, row-less tables included) + seeded random stores (N,E in {0,1,2,5}, 0-3 node and 0-2 edge properties, rank 1-4 with dims in {0,1,2,3,4}, all "
                "integer widths/float32/float64/bool/str, masks none/all-false/some/all-true, zarr v2/v3, id dtypes) + a "
-               "column-name-collision stream; a seeded subset goes through geff_to_csv/`geff convert-to-csv` on disk + "
+               "column-name-collision stream + sequences of 2..4 exports in one process (same property names, other shapes/masks/"
+               "dtypes), every step compared with the model's answer for that store alone; a seeded subset goes through geff_to_csv/`geff convert-to-csv` on disk + "
                "pandas.read_csv + sequences of exports onto the same output (absolute, ~/… with $HOME redirected, relative; str/Path; "
                "with/without suffix; both / one file pre-existing; overwrite); non-trivial = at least one property on a non-empty axis; "
                "distinct = distinct canonical JSON of the case")
@@ -718,7 +750,9 @@ def run(ck: common.Check):
             c["csv_comparable"] = csv_comparable(c)
             ncsv += 1
 
-    obs_all = common.pmap(impl_obs, cases, chunksize=8)
+    seqs = [sequence_case(ck.rng) for _ in range(400 if thorough else 60)]
+    all_obs = common.pmap(observe, cases + seqs, chunksize=8)
+    obs_all, seq_obs = all_obs[:len(cases)], all_obs[len(cases):]
     drv = ck.driver()
     idx_model = [i for i, o in enumerate(obs_all) if "order" in o]
     model = drv.ask([model_request(cases[i], obs_all[i]["order"]) for i in idx_model])
@@ -754,6 +788,44 @@ def run(ck: common.Check):
                 if d is not None:
                     ck.corr_broken("C17:geffToDataframes", small,
                                    {k: o.get(k) for k in ("exc", "msg", "nodes", "edges", "warn")}, {"diff": d, "model": mo})
+    # ---- export sequences: every step must equal the export of its store alone
+    # (GeffProps.C17.C17_history_independent: exportSeq = map geffToDataframes)
+    seq_ok = [i for i, so in enumerate(seq_obs) if all("order" in o for o in so["steps"])]
+    seq_model = drv.ask([{"op": "seq", "stores": [model_request(c, o["order"]) for c, o in zip(seqs[i]["seq"], seq_obs[i]["steps"])]}
+                         for i in seq_ok]) if seq_ok else []
+    if seq_model is None:
+        ck.broken.append({"what": "driver Drivers/C17.lean (seq)", "detail": drv.broken})
+    seq_model_by = dict(zip(seq_ok, seq_model or []))
+    n_steps = 0
+    for qi, (sq, so) in enumerate(zip(seqs, seq_obs)):
+        tags = []
+        for si, (step, o) in enumerate(zip(sq["seq"], so["steps"])):
+            n_steps += 1
+            if "unwritable" in o or "unreadable" in o:
+                tags.append("skipped")
+                continue
+
+            def fail(key, what, observed=None, expected=None, _si=si, _sq=sq):
+                k2 = key if (_si == 0 or key == "C17:column-name-collision") else "C17:history-dependent-output"
+                ck.fail(k2, f"step {_si} of an export sequence [{key}]: {what}", _sq, observed, expected)
+            tags.append(judge(step, o, fail))
+            mo = seq_model_by.get(qi)
+            if mo is not None:
+                if "err" in mo or len(mo.get("steps", [])) != len(so["steps"]):
+                    ck.corr_broken("C17:driver-seq", sq, None, mo)
+                    break
+                d = None if "err" in mo["steps"][si] else compare_model(o, mo["steps"][si])
+                if d is not None:
+                    if si > 0:
+                        ck.fail("C17:history-dependent-output",
+                                f"step {si} of an export sequence differs from the export of its store alone: {d}", sq,
+                                {k: o.get(k) for k in ("exc", "msg", "nodes", "edges", "warn")}, mo["steps"][si])
+                    else:
+                        ck.corr_broken("C17:geffToDataframes(seq step 0)", sq, {k: o.get(k) for k in ("exc", "msg", "nodes", "edges", "warn")},
+                                       {"diff": d, "model": mo["steps"][si]})
+        ck.case(sq, tag=f"sequence|{len(sq['seq'])} steps|" + ",".join(sorted(set(tags))), nontrivial=True)
+    ck.extra["export_sequences"] = len(seqs)
+    ck.extra["export_sequence_steps"] = n_steps
     n_skipped = sum(1 for o in obs_all if "unwritable" in o or "unreadable" in o)
     ck.extra["skipped_unwritable_or_unreadable"] = n_skipped
     if n_skipped * 20 > len(obs_all):      # generation dominated by stores the writer/reader refuses
@@ -792,6 +864,18 @@ def run(ck: common.Check):
 
 def replay(rp):
     c = rp["case"]
+    if "seq" in c:
+        fails = []
+        for si, (step, o) in enumerate(zip(c["seq"], impl_seq(c)["steps"])):
+            if "unwritable" not in o and "unreadable" not in o:
+                judge(step, o, lambda key, what, observed=None, expected=None, _si=si: fails.append({"step": _si, "key": key, "what": what}))
+            print(json.dumps({"step": si, "obs": {k: o.get(k) for k in ("exc", "msg", "nodes", "edges", "warn")}}, default=str)[:3000])
+        known = {k["key"] for k in common.load_known() if k["property"] == PROP and k["kind"] == "known"}
+        bad = [f for f in fails if f["key"] not in known]
+        print(json.dumps({"failures": fails}))
+        print("REPLAY: property holds on this input" if not fails else
+              ("REPLAY: property FAILS on this input" + ("" if bad else " (known finding)")))
+        return 1 if fails else 0
     o = impl_obs(c)
     fails = []
     if "unwritable" not in o and "unreadable" not in o:
